@@ -45,6 +45,17 @@ def run(ctx):
     for d in ("random.random_shuffle", "random.random_shuffle_all_orders", "random.add_random_edge", "random.add_random_edges"):
         with res.guard("check_purectx, eff, res, d, rootshg,, constsinplace: False, ruleEINPLA"):
             check_pure(ctx, eff, res, d, roots=("hg",), consts={"inplace": False}, rule="E-INPLACE", detail_prefix="inplace=False:")
+        # "everything else intact": the edit goes through add_edge(s) / remove_edge(s).  Replacing the WHOLE state of the argument
+        # (`hg.populate_from_dict(h.expose_data_structures())`, clear(), the raw table setters) resets whatever the snapshot does not
+        # carry - incidence metadata, empty edges
+        with res.guard(f"E-INPLACE no wholesale state replacement in {d}"):
+            fi_w = ctx.require(d)
+            hgp = fi_w.params[0].arg
+            whole = [c_ for c_ in walk_no_nested(fi_w.node) if isinstance(c_, ast.Call) and isinstance(c_.func, ast.Attribute) and isinstance(c_.func.value, ast.Name) and c_.func.value.id == hgp and c_.func.attr in ("populate_from_dict", "clear", "set_edge_list", "set_adj_dict", "__init__", "__setstate__")]
+            if whole:
+                res.violation("E-INPLACE", fi_w.short, norm(whole[0])[:90], "edits-only", f"`{norm(whole[0])[:60]}` replaces the whole state of the argument: tables that the replacement does not carry (incidence metadata, empty edges) are reset, although only hyperedges were to be added / rewired", loc(fi_w, whole[0]))
+            else:
+                res.ok("E-INPLACE", fi_w.short, "no wholesale replacement of the argument's state", "edits-only", loc(fi_w, fi_w.node))
         # with inplace=False what comes back is a COPY: a return that hands the argument itself back (an early exit `return None if
         # inplace else hg`) lets the caller - random_shuffle_all_orders rewires what it got in place - modify the argument
         with res.guard(f"E-INPLACE fresh result of {d}"):
